@@ -6,6 +6,7 @@ mod docgen;
 mod drive;
 mod explore;
 mod props;
+mod rattr;
 mod rmatch;
 mod rtok;
 mod tokseam;
